@@ -125,29 +125,38 @@ def term_vars(t):
 
 
 def relevance_stages(constraints, neg):
-    """increasingly large subsets of the constraints, most relevant first"""
+    """increasingly large subsets of the constraints, most relevant first.  Variables
+    that occur in more than 40% of the constraints (pi, the wavevector, ...) are
+    "hubs" and do not propagate relevance."""
     V = set(term_vars(neg))
     cv = [(c, term_vars(c)) for c in constraints]
+    count = {}
+    for _, vs in cv:
+        for v in vs:
+            count[v] = count.get(v, 0) + 1
+    hubs = {v for v, n in count.items() if n > 0.4 * max(len(cv), 1) and len(cv) > 20}
     inside = [c for c, vs in cv if vs and vs <= V]
     stages = []
     if len(inside) < len(constraints):
         stages.append(('subset-vars', inside))
     prev = len(inside)
-    W = set(V)
+    W = set(V) - hubs
+    if not W:
+        W = set(V)
     for hop in (1, 2, 3):
-        touch = [c for c, vs in cv if vs & W]
+        touch = [c for c, vs in cv if (vs - hubs) & W or (vs and vs <= (V | hubs))]
         if len(touch) >= len(constraints):
             break
         if len(touch) > prev:
             stages.append((f'subset-{hop}hop', touch))
             prev = len(touch)
         for c, vs in cv:
-            if vs & W:
-                W = W | vs
+            if (vs - hubs) & W:
+                W = W | (vs - hubs)
     return stages
 
 
-def _relevance_stage(constraints, neg, budget=3000):
+def _relevance_stage(constraints, neg, budget=5000):
     for name, sub in relevance_stages(constraints, neg):
         v, _ = _run(_mk_solver, sub, neg, budget)
         if v == 'unsat':
